@@ -9,7 +9,8 @@ def main(c):
     rnd = random.Random(c.seed)
     c.add_mc("HashStream (buffering shared by every SHA-256 path)", vlib.tlc(g.SD, "HashStream", "HashStreamMC.cfg", workers=4, timeout=600))
     c02.model_checks(c)
-    lines = (g.aesfresh_lines(rnd) + g.hash_lines(rnd, c.pick(200, 3000)) + g.crc_lines(rnd, c.pick(600, 6000)) + g.aes_lines(rnd, c.pick(200, 2000)) +
+    # (HMAC and PBKDF2 are built on the SHA-256 transform, whose scratch space the accelerated and the portable paths use differently)
+    lines = (g.aesfresh_lines(rnd) + [l for l in g.hmac_lines(rnd, c.pick(60, 1500)) if " sha256 " in l][:: c.pick(3, 1)] + g.pbkdf2_lines(rnd, c.pick(10, 300))[:: c.pick(2, 1)] + g.hash_lines(rnd, c.pick(200, 3000)) + g.crc_lines(rnd, c.pick(600, 6000)) + g.aes_lines(rnd, c.pick(200, 2000)) +
              g.ctr_lines(rnd, c.pick(500, 5000), c.pick(4, 12)))
     # only SHA-256 / CRC32C / AES / AES-CTR have accelerated paths
     lines = [l for l in lines if not l.startswith("hash sha1") and not l.startswith("hash md5")]
